@@ -64,6 +64,9 @@ class Repo(object):
                 return m
         return None
 
+    def loaded_modules(self):
+        return list(self.modules.values())
+
     def resolve(self, dotted):
         """dotted name -> ('module', Module) | ('func', Module, qual) | ('class', Module, name) | ('const', value) | None"""
         parts = dotted.split(".")
